@@ -168,6 +168,10 @@ func (p *Prog) funcDisplay(f *ssa.Function) string {
 func (p *Prog) sym(v ssa.Value) *Sym {
 	switch v := v.(type) {
 	case *ssa.Parameter:
+		if info, ok := p.entryParams()[v]; ok {
+			// a value handed to the goroutine with the go statement reads as the field it replaces
+			return &Sym{Op: "field", Name: info.role, Args: []*Sym{p.Sym(info.recv)}}
+		}
 		return &Sym{Op: "param", Name: v.Name()}
 	case *ssa.FreeVar:
 		return &Sym{Op: "free", Name: v.Name()}
